@@ -1077,3 +1077,55 @@ Theorem addr_history_old_refuted :
 Proof.
   exists ex_hist. split; [repeat constructor|]. split; [vm_compute; discriminate|vm_compute; reflexivity].
 Qed.
+
+(* ------------------------------------------------------------------ *)
+(* glue: datagrams sent twice around the GSO-disable retry              *)
+(* ------------------------------------------------------------------ *)
+
+Lemma skipn_map' {A B} (f : A -> B) (l : list A) n : skipn n (map f l) = map f (skipn n l).
+Proof. revert l; induction n as [|n IH]; intros [|x l]; cbn [skipn map]; auto. Qed.
+
+Lemma wire_app a b : wire (a ++ b) = wire a ++ wire b.
+Proof. unfold wire. apply flat_map_app. Qed.
+
+(* /repo HEAD: when the kernel has sent the messages in front of the refused
+   one before it reports EIO, the resend of the WHOLE batch puts their datagrams
+   on the wire a second time. *)
+Definition dup_bufs : list buf :=
+  [ {| b_data := [1]; b_cap := 100 |}; {| b_data := [2;2]; b_cap := 100 |}; {| b_data := [3;3]; b_cap := 100 |} ].
+
+Theorem gso_disable_retry_duplicates_refuted :
+  exists c bufs o1 o2, wf_cfg c /\ Forall wf_buf bufs /\
+    let '(t1, t2, e2) := send_with_gso_disable c bufs o1 o2 in
+    e2 = false /\ wire (t1 ++ t2) <> map b_data bufs /\ wire (t1 ++ t2) = [[1]; [1]; [2;2]; [3;3]].
+Proof.
+  exists f4_cfg, dup_bufs, [WOk 1; WErr], [WOk 3]. split; [vm_compute; discriminate|]. split.
+  - repeat constructor; vm_compute; discriminate.
+  - vm_compute. split; [reflexivity|]. split; [discriminate|reflexivity].
+Qed.
+
+(* with the repair: whatever the first attempt handed over before the error,
+   first attempt + resend put exactly the batch on the wire, nothing twice *)
+Theorem gso_disable_retry_fixed_exact : forall c bufs oracle1 oracle2,
+  wf_cfg c -> Forall wf_buf bufs ->
+  Forall accepts_some oracle2 -> (length bufs <= length oracle2)%nat ->
+  let '(t1, t2, e2) := send_with_gso_disable_fixed wire c bufs oracle1 oracle2 in
+  e2 = false /\ wire t1 ++ wire t2 = map b_data bufs /\ Forall (fun m => m_gso m = []) t2.
+Proof.
+  intros c bufs oracle1 oracle2 Hwf Hb Hpos Hlen. unfold send_with_gso_disable_fixed.
+  destruct (send_loop_prefix (S (length (coalesce c bufs))) (coalesce c bufs) 0 oracle1) as (suf & Hsuf).
+  destruct (send_loop (S (length (coalesce c bufs))) (coalesce c bufs) 0 oracle1) as [t1 e1]. cbn [fst skipn] in Hsuf.
+  pose proof (send_transparent c bufs Hwf Hb) as Htr. fold (wire (coalesce c bufs)) in Htr.
+  rewrite <- Hsuf, wire_app in Htr.
+  set (rest := skipn (length (wire t1)) bufs).
+  set (pre := coalesce c bufs ++ _).
+  destruct (unmerged_ok c Hwf rest pre) as [Hd Hall].
+  assert (Hl : (length (unmerged c pre rest) <= length bufs)%nat).
+  { rewrite <- (map_length m_data), Hd, map_length. unfold rest. rewrite skipn_length. lia. }
+  rewrite send_loop_complete; cbn [skipn]; try lia; [|exact Hpos].
+  assert (Hg : Forall (fun m => m_gso m = []) (unmerged c pre rest)).
+  { rewrite Forall_forall in *. intros m Hm. apply (Hall m Hm). }
+  split; [reflexivity|]. split; [|exact Hg].
+  rewrite (wire_no_gso (unmerged c pre rest) Hg). rewrite Hd. unfold rest. rewrite <- skipn_map', <- Htr.
+  rewrite skipn_app, skipn_all, Nat.sub_diag. reflexivity.
+Qed.
